@@ -46,6 +46,11 @@ def gen_table(rd, name: str, n_rows: Optional[int] = None, shape: Optional[int] 
         if rd.random() < 0.3:
             svals = svals + ["U", "\u00e9", "\u65e5\u672c", " u", "o'k", 'q"t', "%_", ""]  # case, non-ASCII, blanks, quotes, wildcards, empty
         cols.append({"name": "s", "kind": "str", "values": [rd.choice(svals) for _ in range(n)]})
+    if rd.random() < 0.06:
+        # column names that are SQL keywords / differ from another column only in case
+        ren = {"x": "order", "n": "Group"}
+        for c in cols:
+            c["name"] = ren.get(c["name"], c["name"])
     return {"name": name, "cols": cols}
 
 
